@@ -169,6 +169,16 @@ class IH5MFRecord(IH5Record):
             # NOTE: as long as we enforce checksum of manifest, this failure can't happen:
             # if ubext.manifest_uuid != self._manifest.manifest_uuid:
             #     raise ValueError(f"{ub._filename}: Manifest file has wrong UUID!")
+        elif ub.hdf5_hashsum is None and len(ret._files) > 1:
+            # latest container is an uncommitted patch that is continued ->
+            # the manifest of the latest committed container is the one to inherit from
+            prev_file = cls._manifest_filepath(ret._files[-2].filename)
+            prev_ext = IH5UBExtManifest.get(ret._ublock(-2))
+            if prev_ext is not None and prev_file.is_file():
+                if prev_ext.manifest_hashsum != hashsum_file(prev_file):
+                    msg = "Manifest has been modified, unexpected hashsum!"
+                    raise ValueError(f"{ret._files[-2].filename}: {msg}")
+                ret._manifest = IH5Manifest.parse_file(prev_file)
         # all looks good
         return ret
 
